@@ -31,6 +31,7 @@ type c18rec struct {
 	MRef int    `json:"mref"`
 	MPos int    `json:"mpos"`
 	Key  int    `json:"key"`
+	Pad  int    `json:"pad"` // sequence length (0: one base); long sequences make records span BGZF blocks
 }
 
 type c18input struct {
@@ -40,6 +41,9 @@ type c18input struct {
 	Fail int              `json:"fail"` // -1: none; n: reading record n (0-based; len(recs) = the end marker) fails
 	Kind string           `json:"kind"` // "err": the io.Reader returns an error; "trunc": the stream just stops
 	Rd   int              `json:"rd"`
+	GO   int              `json:"go"`     // header group order
+	Lay  string           `json:"layout"` // "block": every record in a BGZF block of its own; "natural": as bam.Writer lays it out
+	Wc   int              `json:"wc"`     // writer concurrency for the natural layout
 }
 
 type c18case struct {
@@ -110,6 +114,7 @@ func c18header(in c18input) (*sam.Header, error) {
 	}
 	h.Version = "1.6"
 	h.SortOrder = sam.SortOrder(in.SO)
+	h.GroupOrder = sam.GroupOrder(in.GO)
 	return h, nil
 }
 
@@ -122,6 +127,16 @@ func c18record(h *sam.Header, r c18rec) *sam.Record {
 		TempLen: r.UID,
 		Seq:     sam.NewSeq([]byte("A")),
 		Qual:    []byte{30},
+	}
+	if r.Pad > 1 {
+		seq := make([]byte, r.Pad)
+		qual := make([]byte, r.Pad)
+		for i := range seq {
+			seq[i] = "ACGT"[(i*7+r.UID)%4]
+			qual[i] = byte((i*13 + r.UID) % 40)
+		}
+		rec.Seq = sam.NewSeq(seq)
+		rec.Qual = qual
 	}
 	if r.Ref >= 0 {
 		rec.Ref = h.Refs()[r.Ref]
@@ -145,6 +160,32 @@ func c18build(in c18input) ([]byte, []int, error) {
 		return nil, nil, err
 	}
 	var buf bytes.Buffer
+	if in.Lay == "natural" {
+		// an ordinary BAM file: records share and span BGZF blocks
+		wc := in.Wc
+		if wc < 1 {
+			wc = 1
+		}
+		bw, err := bam.NewWriter(&buf, h, wc)
+		if err != nil {
+			return nil, nil, err
+		}
+		for _, r := range in.Recs {
+			if err := bw.Write(c18record(h, r)); err != nil {
+				return nil, nil, err
+			}
+		}
+		if err := bw.Close(); err != nil {
+			return nil, nil, err
+		}
+		// only the end marker (the last 28 bytes) is a known block boundary
+		offs := make([]int, len(in.Recs)+1)
+		for i := range offs {
+			offs[i] = -1
+		}
+		offs[len(in.Recs)] = buf.Len() - 28
+		return buf.Bytes(), offs, nil
+	}
 	bg := bgzf.NewWriter(&buf, 1)
 	bw, err := bam.NewWriter(bg, h, 1)
 	if err != nil {
@@ -247,7 +288,7 @@ func c18(raw json.RawMessage) interface{} {
 		}
 		fr := &c18faultReader{data: data, cut: -1, kind: in.Kind}
 		if in.Fail >= 0 {
-			if in.Fail >= len(offs) {
+			if in.Fail >= len(offs) || offs[in.Fail] < 0 {
 				return map[string]interface{}{"bad_case": "fail position"}
 			}
 			// inside the BGZF header of the block that holds record `fail`
@@ -289,6 +330,7 @@ func c18(raw json.RawMessage) interface{} {
 	}
 	out["hrefs"] = hrefs
 	out["hso"] = int(h.SortOrder)
+	out["hgo"] = int(h.GroupOrder)
 	total := 0
 	for _, in := range c.Inputs {
 		total += len(in.Recs)
